@@ -433,6 +433,59 @@ fn run(ctx: &mut Ctx) {
             exec(ctx, &big, &h, &getters, "long_header");
         });
     }
+    // addresses relative to one another and to the header's own extent
+    ctx.bound("relative_addresses", "with H in {1 MiB, 0} and every distance d in 0..=160 (step 4, plus d +- 1 around multiples of 8): headers [address: header at H, load end / bss end H + d][entry / EFI32 entry / EFI64 entry address H + d][relocatable window H..H + d][end] and the same without the address tag; all 10 getters and the walk");
+    {
+        let mut ds: Vec<u32> = (0..=160).step_by(4).collect();
+        for m in (8..=160u32).step_by(8) {
+            ds.push(m - 1);
+            ds.push(m + 1);
+        }
+        for d in ds {
+            for h0 in [0x10_0000u32, 0] {
+                for with_addr in [true, false] {
+                    for e in [hd::ENTRY, 8u16, 9u16] {
+                        let mut tags = vec![];
+                        if with_addr {
+                            tags.push(hd::words(hd::ADDRESS, 0, &[h0, h0, h0 + d, h0 + d]));
+                        }
+                        tags.push(hd::words(e, 0, &[h0 + d]));
+                        tags.push(hd::words(hd::RELOCATABLE, 0, &[h0, h0 + d, 8, 0]));
+                        tags.push(hd::end_tag());
+                        let h = hd::header(0, &tags, 0);
+                        let describe = || J::obj().set("part", "relative_addresses").set("base", h0).set("distance", d).set("address_tag", with_addr).set("entry_kind", e).set("header", J::hex(&h));
+                        ctx.leaf(describe, |ctx| {
+                            ctx.state(hash::hash_bytes(&h));
+                            ctx.nontrivial();
+                            exec(ctx, &arena, &h, &getters, "relative_addresses");
+                        });
+                    }
+                }
+            }
+        }
+    }
+    // far tags: one huge information request in front, so that every other tag starts 64 KiB / 512 KiB / 1 MiB (each
+    // +-8, 512 KiB also -16) behind the first tag - positions counted in 8-byte units cross 2^13, 2^16 and 2^17
+    ctx.bound("far_tags", "an information request of (D-8)/4 entries in front of one instance of every other kind, for D (the distance of the second tag from the first) in {65528, 65536, 65544, 524272, 524280, 524288, 524296, 1048568, 1048576, 1048584}; all 10 getters and the walk");
+    {
+        let far = Arena::new(270);
+        for d in [65528usize, 65536, 65544, 524272, 524280, 524288, 524296, 1048568, 1048576, 1048584] {
+            let mut tags = vec![hd::sample(hd::INFO_REQ, 3, (d - 8) / 4)];
+            for k in 1..=10u16 {
+                if k != hd::INFO_REQ {
+                    tags.push(hd::sample(k, 1, 2));
+                }
+            }
+            tags.push(hd::end_tag());
+            let h = hd::header(0, &tags, 0xF7);
+            let describe = || J::obj().set("part", "far_tags").set("distance_of_second_tag", d).set("header_len", h.len());
+            ctx.leaf(describe, |ctx| {
+                ctx.state(hash::hash_bytes(&h));
+                ctx.nontrivial();
+                exec(ctx, &far, &h, &getters, "far_tags");
+            });
+        }
+    }
     for n in 0..=(if ctx.quick() { 8 } else { 24 }) {
         let h = hd::header(0, &[hd::sample(hd::INFO_REQ, 3, n), hd::end_tag()], 0);
         let describe = || J::obj().set("part", "information_request").set("requests", n).set("header", J::hex(&h));
